@@ -295,6 +295,33 @@ impl CaseIo for Pair {
     }
 }
 
+thread_local! {
+    static ARENA: std::cell::RefCell<Vec<u8>> = std::cell::RefCell::new(Vec::with_capacity(1 << 18));
+}
+
+/// Run `f` on a copy of `x` that lives in this thread's reusable read buffer: like a server that reads every
+/// connection into the same buffer, consecutive cases (and the members of a chain) are then parsed from the SAME
+/// start address with different contents. Inputs larger than the buffer, and nested calls, get a fresh allocation.
+pub fn in_arena<R>(x: &[u8], f: impl FnOnce(&Vec<u8>) -> R) -> R {
+    let mut buf = ARENA.with(|a| std::mem::take(&mut *a.borrow_mut()));
+    if buf.capacity() < x.len() {
+        let fresh = x.to_vec();
+        let r = f(&fresh);
+        ARENA.with(|a| *a.borrow_mut() = buf);
+        return r;
+    }
+    buf.clear();
+    buf.extend_from_slice(x);
+    let r = f(&buf);
+    ARENA.with(|a| {
+        let mut slot = a.borrow_mut();
+        if slot.capacity() < buf.capacity() {
+            *slot = buf;
+        }
+    });
+    r
+}
+
 /// A sequence of inputs judged one after the other on the same thread (history independence: the code under
 /// test is documented as a set of pure functions, so what was parsed or formatted before must not matter).
 #[derive(Clone, Debug)]
@@ -472,6 +499,8 @@ pub struct Runner {
     pub profile: String,
     /// Replay mode: (check name, case json)
     pub replay: Option<(String, Value)>,
+    /// cases to judge (verdicts ignored) before the replayed case, on the same thread: the failure depends on them
+    pub replay_pre: Vec<Value>,
     pub replay_hit: bool,
     pub stats: Stats,
     pub stages: Vec<StageReport>,
@@ -555,6 +584,7 @@ impl Runner {
             seed,
             profile: if cfg!(debug_assertions) { "checked".into() } else { "release".into() },
             replay: None,
+            replay_pre: Vec::new(),
             replay_hit: false,
             stats: Stats::default(),
             stages: Vec::new(),
@@ -612,6 +642,12 @@ impl Runner {
             None => self.inconclusive.push(format!("replay file does not decode as a case of check {}", name)),
             Some(c) => {
                 let mut st = Stats::default();
+                for pv in self.replay_pre.clone() {
+                    if let Some(pc) = C::from_json(&pv) {
+                        let mut scratch = Stats { frozen: true, ..Stats::default() };
+                        let _ = guard(|| judge(&pc, &mut scratch));
+                    }
+                }
                 let r = guard(|| judge(&c, &mut st));
                 self.stats.merge(st);
                 let r = match r {
@@ -725,11 +761,41 @@ impl Runner {
         }
     }
 
-    fn record_violation<C: CaseIo>(&mut self, name: &str, c: C, f: Fail, judge: &(dyn Fn(&C, &mut Stats) -> Verdict + Sync)) {
+    fn record_violation<C: CaseIo>(&mut self, name: &str, c: C, f: Fail, judge: &(dyn Fn(&C, &mut Stats) -> Verdict + Sync), pre: Option<C>) {
         let (c, f) = self.shrink_case(c, f, judge);
+        // Does the case fail on its own? The code under test is supposed to be stateless; if the failure needs the case
+        // that the same worker judged just before it (hidden state carried from call to call), that case goes into the
+        // replay file as well, so that the replay reproduces.
+        let fresh = |cases: Vec<C>| -> bool {
+            std::thread::scope(|s| {
+                s.spawn(move || {
+                    let mut st = Stats { frozen: true, ..Stats::default() };
+                    let mut last_failed = false;
+                    for x in &cases {
+                        last_failed = !matches!(guard(|| judge(x, &mut st)), Ok(Ok(())));
+                    }
+                    last_failed
+                })
+                .join()
+                .unwrap_or(true)
+            })
+        };
+        let mut preceded_by: Vec<Value> = Vec::new();
+        let mut note = "";
+        if !fresh(vec![c.clone()]) {
+            match pre {
+                Some(p) if fresh(vec![p.clone(), c.clone()]) => {
+                    preceded_by.push(p.to_json());
+                    note = "fails only after the preceding case has been judged on the same thread (state carried between calls)";
+                }
+                _ => note = "did not fail again when judged alone on a fresh thread: it depends on earlier calls made by the same worker",
+            }
+        }
         let dir = format!("{}/replays", self.verif_dir);
         let _ = std::fs::create_dir_all(&dir);
         let body = json!({
+            "preceded_by": preceded_by,
+            "history_note": note,
             "property": self.prop,
             "check": name,
             "sig": f.sig,
@@ -903,7 +969,7 @@ impl Runner {
         let shards = THREADS.min(cases.max(1) as usize).max(1);
         let per = (cases + shards as u64 - 1) / shards as u64;
         let stop = AtomicBool::new(false);
-        let results: Mutex<Vec<(usize, Stats, Option<(C, Fail)>)>> = Mutex::new(Vec::new());
+        let results: Mutex<Vec<(usize, Stats, Option<(C, Fail)>, Option<C>)>> = Mutex::new(Vec::new());
         let known: Vec<String> = self.known.iter().filter(|k| k.property == self.prop).map(|k| k.sig.clone()).collect();
         let (seed, prop) = (self.seed, self.prop);
         let journal = self.journal;
@@ -958,6 +1024,9 @@ impl Runner {
                     let mut runner = TestRunner::new(cfg);
                     let strat = proptest::collection::vec(proptest::num::u32::ANY, tape_len);
                     let last_fail: std::cell::RefCell<Option<Fail>> = std::cell::RefCell::new(None);
+                    // the tape judged just before the current one, and the one that preceded the first failure
+                    let prev_tape: std::cell::RefCell<Option<Vec<u32>>> = std::cell::RefCell::new(None);
+                    let pre_at_fail: std::cell::RefCell<Option<Vec<u32>>> = std::cell::RefCell::new(None);
                     let res = runner.run(&strat, |tape| {
                         let mut st = st.borrow_mut();
                         let st = &mut *st;
@@ -976,8 +1045,16 @@ impl Runner {
                             Err(p) => Err(Fail::new("harness-panic", "", name, "judge returns", format!("judge panicked: {}", p))),
                         };
                         match r {
-                            Ok(()) => Ok(()),
+                            Ok(()) => {
+                                if !st.frozen {
+                                    *prev_tape.borrow_mut() = Some(tape.clone());
+                                }
+                                Ok(())
+                            }
                             Err(f) => {
+                                if !st.frozen {
+                                    *pre_at_fail.borrow_mut() = prev_tape.borrow().clone();
+                                }
                                 if known.iter().any(|k| *k == f.sig) {
                                     if !st.frozen {
                                         *st.known_hits.entry(f.sig.clone()).or_insert(0) += 1;
@@ -1016,24 +1093,27 @@ impl Runner {
                         progress[shard].store(u64::MAX, Ordering::Relaxed);
                     }
                     finished.fetch_add(1, Ordering::Relaxed);
-                    results.lock().unwrap().push((shard, st, found));
+                    let pre = if found.is_some() { pre_at_fail.into_inner().map(|t| gen(&mut Tape::new(&t))) } else { None };
+                    results.lock().unwrap().push((shard, st, found, pre));
                 });
             }
         });
         let mut stage = Stats::default();
         let mut first: Option<(C, Fail)> = None;
+        let mut pre: Option<C> = None;
         // merge in shard order so that samples and the reported failure do not depend on thread timing
         let mut shard_results = results.into_inner().unwrap();
         shard_results.sort_by_key(|x| x.0);
-        for (_, st, f) in shard_results {
+        for (_, st, f, p) in shard_results {
             stage.merge(st);
-            if first.is_none() {
+            if first.is_none() && f.is_some() {
                 first = f;
+                pre = p;
             }
         }
         self.finish_stage(name, "random(proptest tape)", stage, None, t0);
         if let Some((c, f)) = first {
-            self.record_violation(name, c, f, judge);
+            self.record_violation(name, c, f, judge, pre);
         }
     }
 
@@ -1098,7 +1178,7 @@ impl Runner {
                 continue;
             }
             if !reported {
-                self.record_violation(name, c, f, judge);
+                self.record_violation(name, c, f, judge, None);
                 reported = true;
             }
         }
